@@ -4,6 +4,7 @@ From Coq Require Import String List Bool ZArith Arith Lia.
 From Orq Require Import GenStatuses GenEvents GenTables GenSpecMeta Base State Machines Codec Conductor Decode Api.
 From Orq Require Import F_tables Hoare StatusReach PersistStatus C04Proofs.
 Import ListNotations.
+Open Scope string_scope.
 Open Scope monad_scope.
 
 Section WithEval.
@@ -137,6 +138,51 @@ Theorem control_request_frame : forall st c c' r, c_init c = true ->
 Proof.
   intros st c c' r Hi H. unfold request_workflow_status, bind in H.
   rewrite (ensure_ws_inited ev c Hi) in H. eapply pctl_request_status_core; exact H.
+Qed.
+
+(* ---- while pausing, a task event never takes the workflow back to an offering status ---- *)
+
+Lemma prefix_empty : forall s, String.prefix "" s = true.
+Proof. destruct s; reflexivity. Qed.
+
+Lemma prefix_append : forall p s, String.prefix p (p ++ s) = true.
+Proof.
+  induction p as [|a p IH]; intro s; simpl; [apply prefix_empty|].
+  destruct (Ascii.ascii_dec a a) as [_|N]; [apply IH|congruence].
+Qed.
+
+Lemma append_assoc_l : forall a b c : string, ((a ++ b) ++ c = a ++ (b ++ c))%string.
+Proof. induction a as [|x a IH]; intros; simpl; [reflexivity|rewrite IH; reflexivity]. Qed.
+
+Lemma wf_task_event_name_is_task_event : forall g w t route st,
+  starts_with "task_" (wf_task_event_name g w t route st) = true.
+Proof.
+  intros. unfold wf_task_event_name, starts_with, TASK_EVENT_PREFIX, EV_TASK_REMEDIATED.
+  change "task_remediated" with ("task_" ++ "remediated")%string.
+  repeat match goal with |- context [if ?b then _ else _] => destruct b end;
+    repeat rewrite append_assoc_l; apply prefix_append.
+Qed.
+
+Theorem task_event_while_pausing : forall t route st c c' r,
+  wstatus (c_ws c) = S_PAUSING -> wf_task_event_M t route st c = (c', r) ->
+  In (wstatus (c_ws c')) [S_PAUSING; S_PAUSED; S_FAILED; S_CANCELING; S_CANCELED].
+Proof.
+  intros t route st c c' r Hs H. unfold wf_task_event_M in H.
+  destruct (wf_process_task_event (c_graph c) (c_ws c) t route st) as [[new unr]|e] eqn:E;
+    inversion H; subst; clear H; [|rewrite Hs; simpl; auto].
+  simpl. unfold wf_process_task_event in E.
+  destruct (negb (string_in (wf_task_event_name (c_graph c) (c_ws c) t route st) TASK_EXECUTION_EVENTS)); [discriminate|].
+  destruct (tbl_row wf_table (wstatus (c_ws c))) as [row|] eqn:Er; [|discriminate].
+  destruct (aget String.eqb (wf_task_event_name (c_graph c) (c_ws c) t route st) row) as [n|] eqn:Ea.
+  - assert (St : tbl_step wf_table S_PAUSING (wf_task_event_name (c_graph c) (c_ws c) t route st) = Some n)
+      by (unfold tbl_step; rewrite <- Hs, Er; exact Ea).
+    pose proof (F_wf_pausing_task_closed _ _ (wf_task_event_name_is_task_event _ _ _ _ _) St) as Hn.
+    destruct (status_in n COMPLETED_STATUSES && negb (status_eqb n S_CANCELED)) eqn:Eb.
+    + unfold fail_on_unreachable in E. destruct (get_unreachable_barriers _ _); inversion E; subst.
+      * exact Hn.
+      * simpl; auto.
+    + inversion E; subst. exact Hn.
+  - inversion E; subst. rewrite Hs; simpl; auto.
 Qed.
 
 End WithEval.
